@@ -13,7 +13,7 @@ from hypothesis import strategies as st
 
 from .. import common, realcluster
 from ..common import Stats, Violation
-from ..genjob import build_job, job_specs, spec_edges
+from ..genjob import build_job, job_specs, same_value, spec_edges
 from ..refeval import evaluate
 
 PROPERTY = "C05"
@@ -134,7 +134,8 @@ def run_plan_checked(plan: dict, stats: Stats | None) -> tuple[bool, list[str]]:
             # confirm: same plan, doubled deadline
             _case_no[0] += 1
             p2 = dict(p)
-            p2.update({"port": 10000 + shard * 1300 + (_case_no[0] % 12) * 100, "prefix": f"q{os.getpid() % 10000}y{_case_no[0] % 1000}"})
+            # far from the first block (see C01): a foreign listener on one of the ports must not look like a hang
+            p2.update({"port": 31000 + shard * 100 + 50, "prefix": f"q{os.getpid() % 10000}y{_case_no[0] % 1000}"})
             out2 = realcluster.run_plan(p2, 2 * DEADLINE_S)
             if out2["verdict"] != "hang":
                 if stats is not None:
@@ -160,7 +161,7 @@ def run_plan_checked(plan: dict, stats: Stats | None) -> tuple[bool, list[str]]:
             ref = evaluate(job)
             for ds in job.ext_outputs:
                 got = out.get("outputs", {}).get(repr(ds), "<missing>")
-                if got != ref[(ds.task, ds.output)]:
+                if not same_value(got, ref[(ds.task, ds.output)]):
                     raise Violation(f"{what}: run() returned {ds} = {got!r}, sequential evaluation gives {ref[(ds.task, ds.output)]!r}", "wrong-value")
         if "teardown" not in out:
             raise Violation(f"{what}: no teardown report (case runner stuck after run() ended)", "teardown-stuck")
@@ -196,7 +197,7 @@ def shard(seed, cases_n, tier):
         stratum = STRATA[(slot + seed // 1000) % len(STRATA)] if slot < full_rounds * len(STRATA) else None
         return draw(plans(stratum))
 
-    common.hyp_run(stratified(), body, st_, seed, cases_n, shrink=False)
+    common.hyp_run(stratified(), body, st_, seed, cases_n, shrink=False, skip_first=True)
     return st_
 
 
